@@ -294,7 +294,7 @@ class SignedFactory:
                 raise Problem('default of %s outside the table: %s' % (n, u(dnode)))
         self.defaults = [dflt.get(n, 'None') for n in SIGNED_PARAMS]
         env = {'secret': ('fa_secret a', 'SECRET'), 'salt': ('fa_salt a', 'SALT'), 'hashalg': ('hashalg', 'HASHALG'),
-               'serializer': ('None', 'NONE'), 'max_age': ('fa_max_age a', 'CFGV'), 'timeout': ('fa_timeout a', 'CFGV'),
+               'serializer': ('serializer', 'SERARG'), 'max_age': ('fa_max_age a', 'CFGV'), 'timeout': ('fa_timeout a', 'CFGV'),
                'reissue_time': ('fa_reissue a', 'CFGV'), 'set_on_exception': ('fa_soe a', 'CFGV')}
         for p in PASS:
             env[p] = ('(%s (fa_attrs a))' % ATTR_FIELD[p], 'CFGV')
@@ -313,6 +313,15 @@ class SignedFactory:
             if nt is None:
                 raise Problem('condition outside the table: %s' % u(s.test))
             t, ty = self.expr(nt[0], env)
+            if ty == 'SERARG':
+                # the caller's serializer= : None (then the code must supply the JSON serializer) or a custom object
+                # with JSON semantics (world assumption) -- both paths must build the same thing
+                e_none, e_some = dict(env), dict(env, **{'$ser_not_none': ('', 'FLAG')})
+                r1 = self.block(list(s.body) + rest, e_none if nt[1] else e_some)
+                r2 = self.block(list(s.orelse) + rest, e_some if nt[1] else e_none)
+                if r1 != r2:
+                    raise Problem('serializer=None and a given serializer lead to different factories')
+                return r1
             if ty == 'NONE':
                 taken = nt[1]
             elif ty in ('SER', 'SERJ'):
@@ -335,6 +344,11 @@ class SignedFactory:
             nt = _none_test(n.test)
             if nt is not None:
                 t, ty = self.expr(nt[0], env)
+                if ty == 'SERARG':
+                    a, b = self.expr(n.body, env), self.expr(n.orelse, env)
+                    if {a[1], b[1]} <= {'SERJ', 'SERARG'}:
+                        return 'SJson', 'SERJ'
+                    raise Problem('conditional expression outside the table: %s' % u(n))
                 if ty == 'NONE':
                     return self.expr(n.body if nt[1] else n.orelse, env)
                 if ty in ('SER', 'SERJ'):
@@ -351,6 +365,11 @@ class SignedFactory:
                     if p not in b:
                         raise Problem('SignedSerializer: argument %s is not passed (WebOb default would apply)' % p)
                     got = self.expr(b[p], env)
+                    if p == 'serializer' and got[1] == 'SERARG':
+                        # the parameter itself, unchecked: only fine where it is known not to be None
+                        if not env.get('$ser_not_none'):
+                            raise Problem('SignedSerializer: serializer may still be None here')
+                        continue
                     if got[1] != ty:
                         raise Problem('SignedSerializer: %s=%s is a %s, expected the factory\'s %s' % (
                             p, u(b[p]), got[1], ty.lower()))
